@@ -230,7 +230,7 @@ def check_reject(case, rec):
         raise Violation('invalid-accepted', f'{op} with operand shapes {sa} / corrupted axis {w} was built: result shape {getattr(r, "shape", None)}', where='accepted:' + op)
 
 
-SUBS = [Sub('semantics', cases, check, {'quick': 400, 'thorough': 8000}, weight=4, timeout=120),
+SUBS = [Sub('semantics', cases, check, {'quick': 600, 'thorough': 8000}, weight=4, timeout=120),
         Sub('reject', reject_cases, check_reject, {'quick': 300, 'thorough': 2000}, weight=1)]
 
 TRIGGERS = {}
